@@ -134,6 +134,10 @@ func c02Write(v Version, human bool, seekable bool, user, owner string, variant 
 		if len(ch) == 0 {
 			// unfiltered data ending in an EOL: the stream extent must not lose it
 			data = []byte("BT /F1 12 Tf (line) Tj ET\n")
+			if variant%2 == 1 {
+				// short (so that /Length is direct), quoting the keyword, ending in a bare CR
+				data = []byte("BT (a short stream)\nendstream\n(quoted above) Tj ET\r")
+			}
 			if variant%2 == 0 {
 				// long enough for an indirect /Length on a non-seekable sink, ending in an EOL
 				data = append(bytes.Repeat([]byte("0 0 m 100 100 l S % filler line\n"), 40), []byte("(endstream is a keyword) Tj\nQ\r\n")...)
